@@ -612,9 +612,9 @@ pub fn c05_query_root_of_unity() {
 
 //@ harness: c05_count_complete
 //@ prop: C05,C01
-//@ tier: thorough
-//@ cost: 1500
-//@ timeout: 3000
+//@ tier: quick
+//@ cost: 300
+//@ timeout: 1500
 //@ funcs: Flp::{prove, query, decide} (Count over GF(17)), ProveShimGadget, QueryShimGadget, Mul::eval_poly, poly_eval_lagrange_batched
 //@ bounds: GF(17); measurement in {0,1}; every prover randomness pair; every query randomness that is not a 2nd root of unity
 //@ asserts: proof has the declared length, query succeeds with the declared verifier length, decide accepts
